@@ -84,6 +84,7 @@ func init() {
 			E2AccumulatorAdvance(c, r)
 			E2RecordPreserved(c, r)
 			E4LogDomain(c, r)
+			E11NormaliseFirst(c, r)
 		},
 	})
 }
@@ -111,6 +112,7 @@ func init() {
 		Explanation: "Decides, for every input string: (1) each index of the input bytes in ParseSVGPath/skipCommaWhitespace is dominated by a bound check on every path through the function (path-sensitive guard facts over the AST, short-circuit aware); the per-command number-count table fits the number buffer; (2) no explicit panic(...) in the canvas module is reachable in the VTA call graph from ParseSVGPath or ParseSVG (restricted to the import closure of package canvas, since no value of another package's type can exist in that call tree) except the reviewed sites listed in the evidence. NOT decided: round-trip equality and number minification, implicit run-time panics other than the named index guards, termination, panics inside third-party Go dependencies (font parsing, shaping).",
 		Assumptions: []string{"cursor variables are non-negative (initialised to 0 and only incremented)", "strconv.ParseFloat (tdewolff/parse) returns 0 <= n <= len(b)", "third-party dependencies are trusted not to panic"},
 		Run: func(c *core.Ctx, r *core.Report) {
+			E11RelativeBeforeUse(c, r)
 			E4ParserGuards(c, r)
 			E4ParserProgress(c, r)
 			E11SVGSmooth(c, r)
@@ -144,6 +146,7 @@ func init() {
 		Assumptions: []string{"fmt.Fprintf writes exactly the formatted bytes and returns their count", "path data produced by Path.ToPDF is treated as an opaque, well-delimited operand sequence (its own operator arities are checked under C11/C12)"},
 		Run: func(c *core.Ctx, r *core.Report) {
 			E4AlphaDivision(c, r)
+			E5JPEGColorSpace(c, r)
 			E5Position(c, r)
 			E5ObjOffsets(c, r)
 			E5Reserved(c, r)
@@ -341,6 +344,9 @@ func init() {
 			E11GlyphCursor(c, r)
 			E11ItemsCoverGlyphs(c, r)
 			E11HyphenGuard(c, r)
+			E11GlyphIndexDomain(c, r)
+			E11DerivedBeforeUpdate(c, r)
+			E11ResetComplete(c, r)
 			E11StaleAfterBreak(c, r)
 		},
 	})
@@ -399,6 +405,7 @@ func init() {
 			E8Units(c, r)
 			E11SweepFlip(c, r)
 			E11RotationMerge(c, r)
+			E11MatrixInverse(c, r)
 			E11OmittedTerm(c, r)
 			E11GramConsistency(c, r)
 		},
